@@ -47,6 +47,25 @@ def gen(rng):
                         r['target'] = a['synsets'][0]['id']
         lexs.append(b)
     ops = [{'k': 'add', 'res': docs.resource(lexs, vs)}, {'k': 'obs'}]
+    if rng.random() < 0.35:
+        # another version of a:1 is installed side by side (same entity ids) but not exported
+        a2 = copy.deepcopy(a)
+        a2['version'] = '2'
+        a2.pop('requires', None)
+        # same sense ids, other frames
+        for f in a2.get('frames', []) or []:
+            f['subcategorizationFrame'] = 'v2 ' + f['subcategorizationFrame']
+            if f.get('id'):
+                f['id'] = f['id'] + '-v2'
+        for e in a2.get('entries', []):
+            for s_ in e.get('senses', []):
+                if s_.get('subcat'):
+                    s_['subcat'] = [x + '-v2' for x in s_['subcat']]
+            for f in e.get('frames', []) or []:
+                f['subcategorizationFrame'] = 'v2 ' + f['subcategorizationFrame']
+            if vs == '1.0' and e.get('senses') and not e.get('frames'):
+                e['frames'] = [{'subcategorizationFrame': 'v2 only ' + e['id']}]
+        ops.append({'k': 'add', 'res': docs.resource([a2], vs)})
     spec = ' '.join(f"{lx['id']}:{lx['version']}" for lx in lexs)
     for v in VERSIONS:
         ops.append({'k': 'export', 'lexicons': spec, 'v': v})
